@@ -163,6 +163,14 @@ def attack(mode, kind, evil_id, evil_sig, loc, strip):
         _find(A, q(SAML, "NameID"))[0].text = EVIL_NID
     elif kind == 2:
         _find(A, q(SAML, "AttributeValue"))[0].text = EVIL_VAL
+    elif kind == 8:
+        # content edited inside the assertion (its own Signature untouched, now invalid), then the
+        # *response* is signed afresh over the edited document: a valid outer signature must not
+        # vouch for the inner one that is also relied upon
+        _find(A, q(SAML, "NameID"))[0].text = EVIL_NID
+        _find(A, q(SAML, "AttributeValue"))[0].text = EVIL_VAL
+        if [c for c in root if c.tag == X.SIG]:
+            X.sign_in_place(root, R_NAME, RID)
     elif kind == 7:
         # the (signed) assertion is replaced by an EncryptedAssertion whose plaintext is an unsigned evil assertion
         idx = list(root).index(A)
@@ -246,7 +254,7 @@ def attack(mode, kind, evil_id, evil_sig, loc, strip):
     return ET.tostring(root, encoding="unicode")
 
 
-KINDS = 8
+KINDS = 9
 OPTS = [(True, False, False), (False, True, False), (False, False, True), (True, True, False)]   # (want_response, want_assertions, want_either)
 
 
@@ -325,10 +333,11 @@ CONDITIONS = [
     Cond(name="wrap", fn="wrap", params=_P, pre=_PRE,
          partitions={"quick": [{"mode": m, "kind": k, "evil_id": 0, "evil_sig": 0, "loc": 0, "strip": False} for m in range(3) for k in (0, 1, 2, 5, 6)] +
                               [{"mode": m, "kind": 7, "evil_id": 0, "evil_sig": 0, "loc": 0, "strip": False} for m in (0, 1)] +
+                              [{"mode": 2, "kind": 8, "evil_id": 0, "evil_sig": 0, "loc": 0, "strip": False}] +
                               [{"mode": 0, "kind": 3, "evil_sig": s, "loc": l, "opt": 1} for (s, l) in ((1, 3), (1, 4), (1, 5), (3, 5), (4, 2))] +
                               [{"mode": 2, "kind": 3, "evil_sig": 1, "loc": 5, "opt": 3}] +
                               [{"mode": 1, "kind": 4, "evil_sig": s, "loc": l, "opt": 0} for (s, l) in ((1, 2), (1, 3), (3, 5))],
-                     "thorough": [{"mode": m, "kind": k, "evil_id": 0, "evil_sig": 0, "loc": 0, "strip": False} for m in range(3) for k in (0, 1, 2, 5, 6, 7)] +
+                     "thorough": [{"mode": m, "kind": k, "evil_id": 0, "evil_sig": 0, "loc": 0, "strip": False} for m in range(3) for k in (0, 1, 2, 5, 6, 7)] + [{"mode": 2, "kind": 8, "evil_id": 0, "evil_sig": 0, "loc": 0, "strip": False}] +
                                  [{"mode": m, "kind": k, "evil_sig": s, "loc": l, "opt": (1, 0, 3)[m]} for m in range(3) for k in (3, 4) for s in range(5) for l in range(7)] +
                                  [{"mode": m, "kind": k, "evil_sig": 1, "loc": l, "opt": o} for m in range(3) for k in (3, 4) for l in range(7) for o in range(4) if o != (1, 0, 3)[m]]},
          timeout={"quick": 900, "thorough": 2400}, path_timeout=120,
@@ -336,7 +345,7 @@ CONDITIONS = [
                     "sigver.SecurityContext.correctly_signed_response/_check_signature/check_signature/verify_signature",
                     "SamlBase.harvest_element_tree/_convert_element_tree_to_member (really parsing every attack document)"],
          bounds="documents derived from a genuinely signed response (assertion-, response- or both-signed) by: in-place edits of NameID / attribute value / XML attributes; "
-                "moving the assertion's Signature onto the Response; replacing the assertion by an EncryptedAssertion that decrypts to an unsigned evil one; an evil Assertion (fresh or duplicate ID; Signature children: none, copy of the genuine one, forged, both in either order) "
+                "moving the assertion's Signature onto the Response; replacing the assertion by an EncryptedAssertion that decrypts to an unsigned evil one; editing the assertion and re-signing only the response around it; an evil Assertion (fresh or duplicate ID; Signature children: none, copy of the genuine one, forged, both in either order) "
                 "with the original relocated (dropped, following / preceding sibling, evil element's Advice, ds:Object of the copied Signature, Response Extensions, first child of the root; "
                 "keeping or stripped of its own Signature); the same with an evil Response wrapping the original Response; x 4 signature-requiring SP option settings. "
                 "quick: sampled signature-children / location combinations"),
